@@ -69,6 +69,31 @@ CLAIMS = {
              "types with boxed children only, that unpinned references to slot storage are only inspected / re-pinned and never moved out "
              "of, assigned through or passed to move/swap/copy APIs, and that no public signature hands out a child by value or by &mut.",
         note=TB),
+    "C09": dict(
+        technique="path-sensitive static analysis: every drop-flag/enum-variant-feasible CFG path of the adapter poll functions abstracted to event sequences and replayed through a finite abstract state (predicate abstraction, no joins)",
+        text="For n >= 1 decides on all feasible paths (blocks visited <= 3 times) of the five adapter poll functions: the queue is built with "
+             "the limit itself and never replaced; every insertion is behind a true `len() < capacity()` guard on the same queue; every "
+             "Pending return is work-conserving (inner Pending and queue observed full / upstream gone / upstream Pending in this call, or "
+             "nothing in flight and upstream Pending). Uses callee summaries decided by C02/C15 (None iff empty; observers).",
+        note=TB + "Assume-guarantee links: C02 R2.4, C15 R15.3/R15.4. Loops unrolled to 3 visits per block."),
+    "C10": dict(
+        technique="path-sensitive static analysis over adapter event sequences + value provenance of pushed items / returned errors + doc-vs-code rule for the documented limit",
+        text="Decides on all feasible paths: upstream polled only while present and set(None) after its end (fused); every pulled item reaches "
+             "exactly one insertion and is (the closure of) that item; an upstream error returns at once as that poll's residual with queue "
+             "and stream untouched; None/completion exactly in state inner-empty and upstream-gone, never Pending there; documented limit-0 "
+             "semantics of for_each_concurrent (one known finding). Multiset equality over all scripts is NOT decided.",
+        note=TB + "Known finding D3 (for_each_concurrent(0)) is listed in known_findings.json."),
+    "C16": dict(
+        technique="data-dependence analysis of the fill-guard operands through crate observers + exact-shape check of the observer + guarded-push path rule",
+        text="Decides in full at the structural level that the ordered adapters' fill guard compares exactly (running + parked) with "
+             "capacity() and that each pull is behind one true guard evaluation, which bounds pulled-but-not-yielded items by n on every path.",
+        note=TB + "Genuine defect D6 found by this rule was repaired (fix: 1b71eb4)."),
+    "C17": dict(
+        technique="per-path symbolic evaluation of size_hint return values (static, along each feasible CFG path) + dependence-shape rules",
+        text="Decides per feasible path that every adapter upper bound is None or checked_add(upstream-or-0, in-flight count) (running+parked "
+             "for the ordered adapters), lower bounds are saturating sums of upstream-or-0 and the count, no unchecked arithmetic; collections "
+             "return (len, Some(len)) of one len() call; merges keep the (0, None) default.",
+        note=TB + "Genuine defect D7 found by this rule was repaired (fix: 3be6042). Assumes honest upstream hints."),
 }
 
 NOT_APPLICABLE = {}
